@@ -387,6 +387,13 @@ def _floor_real(t):
                 rest.append(ch)
         if ipart and rest:
             return z3.simplify(z3.Sum(ipart) + z3.ToInt(z3.simplify(z3.Sum(rest)) if len(rest) > 1 else rest[0]))
+    if r is None and t.decl().kind() == z3.Z3_OP_MUL and t.num_args() == 2:
+        # floor(x / q) == floor(x) div q for a positive integer q: one canonical to_int(x) per x
+        c, u = t.arg(0), t.arg(1)
+        if z3.is_rational_value(u):
+            c, u = u, c
+        if z3.is_rational_value(c) and c.numerator_as_long() == 1 and c.denominator_as_long() > 1:
+            return _floor_real(u) / c.denominator_as_long()
     if r is not None and r[0]:
         coeffs, c0 = r
         Q = 1
@@ -447,13 +454,27 @@ class SymNum(Sym):
 
     def _div(self, o, rev=False):
         try:
-            a, b = _coerce(self, o)
+            a, b = _z(self), _z(o)
+            if z3.is_bool(a) or z3.is_bool(b):
+                a, b = _coerce(self, o)
         except TypeError:
             return NotImplemented
         if rev:
             a, b = b, a
+        if _is_int(b) and not z3.is_int_value(z3.simplify(b)):
+            # a symbolic integer divisor whose value is forced by the path condition (e.g. a
+            # read-shrink factor int(k + eps)) is replaced by that value: keeps x / n linear
+            c = ctx()
+            r0, m0 = c.check()
+            if r0 == "sat":
+                v = m0.eval(b, model_completion=True)
+                r1, _ = c.check(b != v)
+                if r1 == "unsat":
+                    b = v
         if _is_int(a):
-            a, b = z3.ToReal(a), z3.ToReal(b)
+            a = z3.ToReal(a)
+        if _is_int(b):
+            b = z3.ToReal(b)
         if ctx().decide(b == 0):
             raise ZeroDivisionError("division by zero")
         # reciprocal parametrisation: 1/(1/u) == u (u != 0 was decided when 1/u was formed)
@@ -608,6 +629,15 @@ class SymReal(SymNum):
         return SymInt(z3.simplify(_floor_real(self.t)))
 
     def __ceil__(self):
+        # fork on integrality instead of an ite term (results feed clamps and further floors)
+        f = _floor_real(self.t)
+        fs = z3.simplify(z3.ToReal(f) == self.t)
+        if z3.is_true(fs):
+            return SymInt(z3.simplify(f))
+        if CEIL_FORKS:
+            if ctx().decide(fs):
+                return SymInt(z3.simplify(f))
+            return SymInt(z3.simplify(f + 1))
         return wrap(_ceil_real(self.t))
 
     def __trunc__(self):
@@ -1241,6 +1271,7 @@ class _Inconclusive(BaseException):
         self.label = label
 
 
+CEIL_FORKS = False
 KNOWN_REGIONS: List[dict] = []  # set by the runner: entries of known_findings.json for this job
 
 
